@@ -18,15 +18,17 @@ def states_matrix(ode) -> sympy.Matrix:
     return sympy.Matrix([state.symbol for state in ode.sorted_states()])
 
 
-def rhs_matrix(ode, max_tries: int = 20) -> sympy.Matrix:
+def rhs_matrix(ode, max_tries: int | None = None) -> sympy.Matrix:
     """Return a sympy matrix of the right hand side of the ODE
 
     Parameters
     ----------
     ode : gotranx.ode.ODE
         The ODE
-    max_tries : int, optional
-        Maximum number of tries to try to replace the symbols, by default 20
+    max_tries : int | None, optional
+        Maximum number of tries to try to replace the symbols, by default None,
+        which means the number of intermediates plus one (each pass resolves at
+        least one level of the dependency chain, so this is always sufficient)
 
     Returns
     -------
@@ -40,6 +42,9 @@ def rhs_matrix(ode, max_tries: int = 20) -> sympy.Matrix:
     """
     intermediates = {x.symbol: x.expr for x in ode.intermediates}
     rhs = sympy.Matrix([state.expr for state in ode.sorted_state_derivatives()])
+
+    if max_tries is None:
+        max_tries = len(intermediates) + 1
 
     num_tries = 0
     while (any([rhs.has(k) for k in intermediates.keys()])) and num_tries < max_tries:
